@@ -19,10 +19,10 @@ PROPERTY = "C20"
 LEVEL = "exploration"
 RULE = ("Q: requested lifetimes in ms (quick: every multiple of 50 +-1 up to 7 000 000 plus stride 97; thorough: every "
         "integer 0..7 000 000), distinct by value; D: all 256 LT codes; R: originated packets, distinct by (type, "
-        "requested lifetime ms, requested hop limit, MIB default lifetime, MIB default hop limit); X: (type, RHL, MHL) "
+        "requested lifetime ms plus a sub-millisecond fraction, requested hop limit, MIB default lifetime, MIB default hop limit); X: (type, RHL, MHL) "
         "reception grid. Non-trivial = the monitor compared an on-wire/decoded value with the reference.")
 ASSUMPTIONS = ["reference quantiser = brute force over the 256 codes of EN 302 636-4-1 9.6.4",
-               "float requests k/1000 s are judged against k ms (and against floor of the exact binary value)"]
+               "float requests (k+f)/1000 s, 0 <= f < 1, are judged against k ms (and against floor of the exact binary value): the wire carries whole milliseconds, so it must not exceed k"]
 REQUIRED_COUNTERS = ["Q.compared", "D.compared", "R.lt_compared", "R.hop_compared", "X.injected"]
 EXHAUSTIVE = {"thorough": False}
 
@@ -148,7 +148,9 @@ def gen_r(rng):
     else:
         life_ms = rng.randrange(0, QMAX)
     hop = rng.choice((0, 1, 2, 3, 10, 254, 255, rng.randrange(256)))
-    return {"part": "R", "kind": kind, "life_ms": life_ms, "hop": hop,
+    # a requested lifetime is a float of seconds: it need not be a whole number of milliseconds (round 7, C20-agent7)
+    frac = rng.choice((0, 0, 0, 0.4, 0.5, 0.6, 0.9, 0.9996, round(rng.random(), 4))) if life_ms is not None else 0
+    return {"part": "R", "kind": kind, "life_ms": life_ms, "life_frac": frac, "hop": hop,
             "mib_life": rng.choice((1, 2, 3, 9, 10, 60, 63, 64, 100, 600, 630, 640, 1000, rng.randrange(1, 700))),
             "mib_hop": rng.choice((1, 2, 5, 10, 255, rng.randrange(1, 256))),
             "shape": rng.choice(("circle", "rect", "elip")), "scf": rng.random() < 0.2, "plen": rng.choice((0, 1, 30, 300))}
@@ -169,7 +171,7 @@ def run_r_case(c, res):
         A = w.add("A", mid_of(1), lat=lat, lon=lon, mib_over=mib_over, ports=(2001,))
         B = w.add("B", mid_of(2), lat=lat + 500, lon=lon + 500, ports=(2001,))
         kind = c["kind"]
-        life = None if c["life_ms"] is None else c["life_ms"] / 1000.0
+        life = None if c["life_ms"] is None else (c["life_ms"] + c.get("life_frac", 0)) / 1000.0
         payload = b"\x07\xd1\x00\x00" + bytes(c["plen"])
         if kind != "beacon":
             # make B a neighbour of A so that SCF never parks the packet in the (stub) buffer
@@ -234,6 +236,8 @@ def run_r_case(c, res):
             src = "mib-default"
         res.count("R.lt_compared")
         res.count(f"R.kind[{kind}]")
+        if uses_request and c.get("life_frac"):
+            res.count("R.lt_compared_fractional_ms_request")
         if got > req_ms:
             res.violation(f"C20:lt-exceeds-request[{band(req_ms)}]", f"{kind}: {src} {req_ms} ms, on wire {got} ms", c)
         elif got == 0 and req_ms >= 50:
